@@ -1,6 +1,8 @@
 """Wire forms (C05), written from the property statement; shared by the to_json contracts and the client contracts."""
 from spec.prims import is_absent, member, same
 
+from pjrpc.common.common import UNSET
+
 
 def request_wire(doc, req):
     """doc is exactly the wire form of request req: jsonrpc "2.0"; method; an id member iff not a
@@ -12,3 +14,25 @@ def request_wire(doc, req):
         and (same(member(doc, 'params'), req._params) if req._params else is_absent(member(doc, 'params')))
         and len(doc) == 2 + (1 if req._id is not None else 0) + (1 if req._params else 0)
     )
+
+
+def error_wire(doc, err):
+    """doc is exactly the wire form of error err: code, message, data iff set"""
+    d = member(doc, 'data')
+    return (
+        isinstance(doc, dict)
+        and same(member(doc, 'code'), err.code) and same(member(doc, 'message'), err.message)
+        and (same(d, err.data) if err.data is not UNSET else is_absent(d))
+        and len(doc) == 2 + (0 if err.data is UNSET else 1)
+    )
+
+
+def response_wire(doc, resp):
+    """doc is exactly the wire form of response resp: jsonrpc "2.0", id (null allowed), exactly one of result /
+    error"""
+    if not (isinstance(doc, dict) and member(doc, 'jsonrpc') == '2.0' and same(member(doc, 'id'), resp._id)
+            and len(doc) == 3):
+        return False
+    if resp._error is UNSET:
+        return same(member(doc, 'result'), resp._result) and is_absent(member(doc, 'error'))
+    return is_absent(member(doc, 'result')) and error_wire(member(doc, 'error'), resp._error)
